@@ -15,6 +15,10 @@ PROFILES = {
     "ind": {"task": 5, "worker": 2, "cumulative": 1, "select": 1, "require": 6, "buffer": 1, "bufc": 2, "ind": 7,
             "indc": 2},
     "obj": {"task": 5, "worker": 2, "require": 5, "taskc": 3, "ind": 3, "obj": 5, "buffer": 1, "bufc": 2},
+    # only elements whose documented meaning has a complete spec twin, used inside the fragment where the
+    # encoding is known to be complete (see DESIGN.md, C05): the completeness search enumerates spec-valid
+    # schedules and pins each one in the real solver
+    "frag": {"task": 5, "worker": 2, "cumulative": 1, "select": 2, "require": 6, "fragc": 7, "fol": 2, "optc": 1},
     "all": {"ind": 2, "indc": 1, "task": 5, "worker": 2, "cumulative": 1, "select": 2, "require": 6, "taskc": 5, "fol": 3,
             "optc": 1, "resc": 4, "buffer": 1, "bufc": 3},
 }
@@ -28,13 +32,16 @@ class Gen:
         self.invalid_p = invalid_p
         self.thorough = thorough
         self.simple = simple
+        self.frag = profile == "frag"
+        if self.frag:
+            horizon_p, self.invalid_p = 1.0, 0.0
         if simple:
             horizon_p, self.invalid_p = 1.0, 0.0
         self.real = pslib.Real()
         self.script = []
         self.horizon = rng.choice([6, 7, 10, 13, 20, 30] + ([50, 100, 200] if thorough and not simple else [])) \
             if rng.random() < horizon_p else None
-        if simple:
+        if simple or self.frag:
             self.horizon = rng.choice([6, 8, 10, 12])
         self.nt = self.nw = self.nc = self.nb = 0
         self.kinds = {}      # distribution of declaration kinds (for evidence)
@@ -100,6 +107,10 @@ class Gen:
             al = rng.choice([None, None, None, [1, 2], [2, 3, 5], [mn + 1]])
             kind = ("var", mn, mx, al)
         d = {"op": "task", "name": name, "kind": kind, "optional": rng.random() < 0.35}
+        if self.frag and d["optional"]:
+            # outside the core fragment: optional tasks with release dates / work amounts (findings F7, F26)
+            self.emit(d)
+            return
         if rng.random() < 0.3:
             d["release"] = rng.choice([0, 1, 2, 3, 5])
         if rng.random() < 0.35:
@@ -164,7 +175,7 @@ class Gen:
             return self.g_worker()
         res = rng.choice(choices)
         d = {"op": "require", "task": t, "res": res}
-        if res[0] == "worker":
+        if res[0] == "worker" and not (self.frag and self.real.tasks[t].optional):
             m = rng.random()
             if m < 0.2:
                 d["dynamic"] = True
@@ -225,9 +236,47 @@ class Gen:
             d["name"] = name
         return self.emit(d)
 
+    def g_fragc(self, optional=None):
+        rng = self.rng
+        ts = self.tasks()
+        if not ts:
+            return self.g_task()
+        t, t2 = rng.choice(ts), rng.choice(ts)
+        opts = [n for n in ts if self.real.tasks[n].optional]
+        forms = [
+            lambda: ("startAt", t, self.ival()), lambda: ("startAfter", t, self.ival(), rng.random() < 0.5),
+            lambda: ("endAt", t, self.ival()), lambda: ("endBefore", t, self.ival(), rng.random() < 0.5),
+            lambda: ("precedence", t, t2, rng.choice([0, 0, 1, 2]), rng.choice(["lax", "strict", "tight"])),
+            lambda: ("startSynced", t, t2), lambda: ("endSynced", t, t2),
+        ]
+        multi = self.some_tasks(2, 3)
+        if multi and not any(self.real.tasks[n].optional for n in multi):
+            # groups are not guarded by the scheduled flag (finding F18): mandatory members only
+            forms += [lambda: ("unorderedGroup", multi, self.interval(), 0),
+                      lambda: ("orderedGroup", multi, (0, self.H()), 0, rng.choice(["lax", "strict", "tight"]))]
+        if opts:
+            o = rng.choice(opts)
+            forms += [lambda: ("forceSchedule", o, rng.random() < 0.5), lambda: ("dependency", t, o),
+                      lambda: ("forceScheduleN", rng.sample(opts, rng.randint(1, len(opts))), 1, self.count_kind())]
+        res = self.assigned_resources()
+        if res:
+            r = rng.choice(res)
+            forms += [lambda: ("unavailable", r, [self.interval()])] * 2
+        ns = self.nselects()
+        if ns >= 2:
+            forms += [lambda: ("sameWorkers", rng.randrange(ns), rng.randrange(ns))]
+        d = {"op": "constraint", "c": rng.choice(forms)()}
+        if optional if optional is not None else rng.random() < 0.15:
+            d["optional"] = True
+        return self.emit(d)
+
     def raw_term(self, depth=0):
         rng = self.rng
         ts = self.tasks()
+        if self.frag:
+            # a user expression is enforced as written; over the variables of an unscheduled optional task it
+            # speaks about the parking instant, which is not part of a user-level schedule
+            ts = [n for n in ts if not self.real.tasks[n].optional]
         leaf = [lambda: rng.randint(0, 9)]
         if ts:
             leaf += [lambda: ("tstart", rng.choice(ts)), lambda: ("tend", rng.choice(ts))]
@@ -257,7 +306,7 @@ class Gen:
         rng = self.rng
         if self.nconstraints() == 0 or rng.random() < 0.4:
             # make sure there is something to combine
-            self.g_taskc(optional=rng.random() < 0.1)
+            (self.g_fragc if self.frag else self.g_taskc)(optional=rng.random() < 0.1)
             if not self.real.problem.constraints:
                 return
         k = rng.choice(["not", "or", "and", "xor", "implies", "ifThenElse", "fromExpr"])
@@ -285,7 +334,7 @@ class Gen:
         ids = []
         for _ in range(rng.randint(1, 3)):
             before = self.nconstraints()
-            if self.g_taskc(optional=True) == "ok" and self.nconstraints() == before + 1:
+            if (self.g_fragc if self.frag else self.g_taskc)(optional=True) == "ok" and self.nconstraints() == before + 1:
                 ids.append(before)
         cs = list(self.real.problem.constraints.values())
         pool = [i for i, c in enumerate(cs) if c.optional]
